@@ -4,10 +4,10 @@
    sort by perm; loop (fit with w*mask through the solver sv; reject beyond lower/upper sigma); un-sort.
    sv = fit_dense (certificate-checked unique optimum) in the theorems about the curve,
    sv arbitrary in the bookkeeping theorems; fit_fast is the evaluator of the correspondence run. *)
-From Coq Require Import QArith List Bool Arith.
+From Coq Require Import QArith ZArith List Bool Arith.
 Import ListNotations.
 From PV Require Import Lib.WLS BSpline.Eval BSpline.Fit BSpline.Iter BSpline.FitProofs BSpline.PermProofs
-  BSpline.IterProofs Generated.BSpline BSpline.GenBridge C09.Proofs C10.Model C10.Proofs.
+  BSpline.IterProofs BSpline.IterGuard Generated.BSpline BSpline.GenBridge C09.Proofs C10.Model C10.Proofs C17.Base Generated.Reject C10.RejectBridge.
 Open Scope Q_scope.
 
 (* permuting (x, y, invvar) leaves the coefficients unchanged and permutes the returned mask identically;
@@ -128,6 +128,100 @@ Proof.
     (conj gen_iter_unsort gen_iter_reject_args)))).
 Qed.
 Print Assumptions C10_generated_iterfit.
+
+(* ---- round 5: the guards around the loop.  iterfit returns early, without any fit, exactly when FEWER than nord points have
+   positive weight; with nord or more -- in particular with exactly nord -- the result is that of the documented procedure *)
+Theorem C10_exactly_nord_points_are_fitted : forall sv maxiter lower upper gb k ds perm,
+  (k <= ngood (initial_mask (apply_perm d0 perm ds)))%nat ->
+  iterfit_guarded_with sv maxiter lower upper gb k ds perm =
+  match iterfit_model_with sv maxiter lower upper gb k ds perm with
+  | Some (c, m) => Fitted c m
+  | None => NoModel
+  end.
+Proof. exact iterfit_guarded_enough. Qed.
+Print Assumptions C10_exactly_nord_points_are_fitted.
+
+(* with fewer good points the mask is (invvar > 0) in the caller's order: non-positive weights are still flagged False *)
+Theorem C10_too_few_points_mask : forall sv maxiter lower upper gb k ds perm,
+  (ngood (initial_mask (apply_perm d0 perm ds)) < k)%nat -> is_perm perm (length ds) = true ->
+  iterfit_guarded_with sv maxiter lower upper gb k ds perm = GaveUp (initial_mask ds) /\
+  forall j, nth j (initial_mask ds) false = Qltb 0 (dw (nth j ds d0)).
+Proof. exact iterfit_guarded_gave_up. Qed.
+Print Assumptions C10_too_few_points_mask.
+
+(* which branch is taken does not depend on the order of the input *)
+Theorem C10_good_count_order_independent : forall ds perm, is_perm perm (length ds) = true ->
+  ngood (initial_mask (apply_perm d0 perm ds)) = ngood (initial_mask ds).
+Proof. exact ngood_order_independent. Qed.
+Print Assumptions C10_good_count_order_independent.
+
+(* the guard in the source IS `number of good points < nord` (generated from iterfit on every run), its branch only warns,
+   un-sorts and returns, the knots come from the good points in sorted order; status -2 ends iterfit, rejection runs exactly
+   after status 0, the loop gives up with at most one good point left *)
+Theorem C10_generated_iterfit_guards : forall sv maxiter lower upper gb k ds perm e n anybk,
+  ((forall n, bs_iter_too_few n k = (n <? k)%nat) /\
+   bs_iter_knots_from = expected_knots_from /\
+   iterfit_guarded_with sv maxiter lower upper gb k ds perm =
+   let sorted := apply_perm d0 perm ds in
+   let m0 := map (fun d => bs_iter_good (dw d)) sorted in
+   if bs_iter_too_few (ngood m0) k then GaveUp (unsort false perm m0)
+   else match iter_loop sv (S maxiter) gb k lower upper sorted m0 with
+        | None => NoModel
+        | Some (c, mw) => Fitted c (unsort false perm mw)
+        end) /\
+  (bs_iter_abort e = (e =? -2)%Z /\ bs_iter_reject_when e = (e =? 0)%Z /\
+   bs_iter_give_up n anybk = ((n <=? 1)%nat || negb anybk)).
+Proof.
+  exact (fun sv maxiter lower upper gb k ds perm e n anybk =>
+    conj (gen_iter_too_few sv maxiter lower upper gb k ds perm) (gen_iter_status e n anybk)).
+Qed.
+Print Assumptions C10_generated_iterfit_guards.
+
+(* the rejection pass of the loop IS the threshold logic regenerated from djs_reject (Generated/Reject.v, translate/c17.py) in the
+   configuration iterfit uses: invvar given, lower/upper given, inmask = outmask = working mask, sticky off, no maxdev/maxrej/grow:
+   badness = lower term + upper term; badness *= inmask; newmask = (badness == 0) & inmask.  Limits >= 0. *)
+Theorem C10_reject_is_generated_djs_reject : forall lower upper ds, 0 <= lower -> 0 <= upper -> forall yfit mask,
+  reject lower upper ds yfit mask = generated_reject lower upper ds yfit mask.
+Proof. exact reject_is_generated. Qed.
+Print Assumptions C10_reject_is_generated_djs_reject.
+
+Theorem C10_reject1_is_generated : forall lower upper d yfit m, 0 <= lower -> 0 <= upper ->
+  reject1 lower upper d yfit m =
+  (let diff := dy d - yfit in
+   let badness := rej_lower_iv_term diff lower (dw d) (rej_lower_iv_qbad diff lower (dw d))
+                  + rej_upper_iv_term diff upper (dw d) (rej_upper_iv_qbad diff upper (dw d)) in
+   rej_final (rej_newmask (rej_products badness m m false)) m m false).
+Proof. exact reject1_is_generated. Qed.
+Print Assumptions C10_reject1_is_generated.
+
+(* ... and djs_reject's qdone is the stop test of the loop *)
+Theorem C10_qdone_is_generated : forall a b, rej_qdone a b = mask_eqb a b.
+Proof. exact qdone_is_mask_eqb. Qed.
+Print Assumptions C10_qdone_is_generated.
+
+Example C10_example_generated_reject :
+  generated_reject 2 3 [mkDatum 0 10 4; mkDatum 1 10 4; mkDatum 2 10 4; mkDatum 3 10 0; mkDatum 4 10 4] [10; 12; 9; 0; 10 + (1 # 2)]
+                   [true; true; true; false; true] = [true; false; true; false; true].
+Proof. vm_compute. reflexivity. Qed.
+
+(* non-vacuity: exactly nord = 3 good points (and two zero-weight ones) on one interval are interpolated: 1 + x^2 on [0, 2] *)
+Example C10_example_exactly_nord :
+  let ds := [mkDatum 2 5 1; mkDatum 1 77 0; mkDatum 0 1 1; mkDatum (1 # 2) (-3) (-1); mkDatum 1 2 4] in
+  let perm := [2; 3; 1; 4; 0]%nat in
+  let gb := [-4; -2; 0; 2; 4; 6] in
+  match iterfit_guarded_with fit_dense 2 5 5 gb 3 ds perm with
+  | Fitted c m => all2 Qeq_bool (map (eval1 gb 3 c) [0; 1; 2; (1 # 2)]) [1; 2; 5; (5 # 4)]
+                  && all2 Bool.eqb m [true; false; true; false; true]
+  | _ => false
+  end = true.
+Proof. vm_compute. reflexivity. Qed.
+
+(* ... and with one good point fewer nothing is fitted, the mask still honours the weights *)
+Example C10_example_too_few :
+  let ds := [mkDatum 2 5 1; mkDatum 1 77 0; mkDatum 0 1 1; mkDatum (1 # 2) (-3) (-1); mkDatum 1 2 0] in
+  iterfit_guarded_with fit_dense 2 5 5 [-4; -2; 0; 2; 4; 6] 3 ds [2; 3; 1; 4; 0]%nat
+  = GaveUp [true; false; true; false; false].
+Proof. vm_compute. reflexivity. Qed.
 
 (* non-vacuity: one outlier among nine points of a straight line is rejected and the line is recovered *)
 Example C10_example :
